@@ -737,8 +737,10 @@ class Interp:
             # the sequence they iterate: `seq` is the entry-time sequence value)
             st.assume(z3.Implies(V.is_ref(x), V.id(x) <= entry["nalloc"]))
             src_it = self.lower(it)
-            if is_v(src_it) and self.tag(src_it, cheap=True) == "ref" and self.kind(src_it) == K_LIST:
-                st.list_read(src_it, i)
+            base_it = src_it.base if isinstance(src_it, self.models.HView) and src_it.kind == "enumerate" else src_it
+            base_it = self.lower(base_it)
+            if is_v(base_it) and self.tag(base_it, cheap=True) == "ref" and self.kind(base_it) == K_LIST:
+                st.list_read(base_it, i)
             if isinstance(src_it, self.models.HView) and src_it.kind in ("items", "values", "keys") and is_v(src_it.base):
                 # reading d[k] for the current key: instantiate table invariants for it
                 kcur = seq.at(i) if src_it.kind == "keys" else self.models.dict_parts(self, entry_dict_state(entry, st, src_it.base))[2].at(i)
